@@ -62,11 +62,16 @@ def universes(rng, n, fixed=True):
             combos.append(([rd, "R/proj/sub"], [(fd, [old_name(rd)]) for fd in ("R/proj", "R/sib", "R/components/c")]))
             extras.append(([] if inc else [rd], [rd] if inc else []))
     if fixed:
+        # several rename files named in one invocation (each is global wherever it stands among the arguments)
+        for ex in (["R/orphan", "R/sib"], ["R/sib", "R/orphan"]):
+            combos.append((["R/orphan", "R/sib", "R/proj/sub"], [("R/proj", [old_name(ex[1])]), ("R/components/c", [old_name(ex[0])]), ("R/proj", [old_name("R/proj/sub")])]))
+            extras.append((list(ex), []))
+    if fixed:
         combos.append((["R/components/c"], [(ODD_DIR, [old_name("R/components/c")]), ("R/orphan", [old_name("R/components/c")])]))
         extras.append(([], []))
         combos.append((["R"], [(ODD_DIR, [old_name("R")])]))
         extras.append(([], []))
-    fixed_combos += combos[len(extras) - (8 if fixed else 0):]
+    fixed_combos += combos[len(extras) - (10 if fixed else 0):]
     for _ in range(n // 4):
         rds = rng.sample(RENAME_DIRS, rng.choice([2, 3]))
         files = [(rng.choice(FILE_DIRS), rng.sample([old_name(r) for r in RENAME_DIRS], rng.choice([1, 2]))) for _ in range(rng.choice([2, 3]))]
@@ -137,7 +142,11 @@ def main(run):
             for order in itertools.permutations(range(n), r):
               with contextlib.redirect_stdout(sink):
                   named = [os.path.join(real[d_], "sdkconfig.rename") for d_ in u["explicit"] if u["rename"][d_]]
-                  files, gdep, ldep, ignore, cache, idf = cdo._prepare_deprecated_options([real[d_] for d_ in u["includes"]], [], [paths[k] for k in order] + named)
+                  # the named rename files stand after, before or between the files to check
+                  fl = [paths[k] for k in order]
+                  pos = sum(order) % 3 if named else 0
+                  argv = fl + named if pos == 0 else named + fl if pos == 1 else fl[:1] + named[:1] + fl[1:] + named[1:]
+                  files, gdep, ldep, ignore, cache, idf = cdo._prepare_deprecated_options([real[d_] for d_ in u["includes"]], [], argv)
                   verdict = ["<unset>"] * n
                   err = None
                   for k in order:
@@ -163,11 +172,11 @@ def main(run):
                   total += 1
         u["obs"] = obs
         # the command line, once per universe (all files, given order)
-        if tier == "thorough" or ui % 6 == 0 or any(f["dir"] == ODD_DIR for f in u["files"]):
+        if tier == "thorough" or ui % 6 == 0 or any(f["dir"] == ODD_DIR for f in u["files"]) or len(u["explicit"]) > 1:
             env = dict(os.environ, IDF_PATH=real["R"], PYTHONPATH=REPO)
             named = [os.path.join(real[d_], "sdkconfig.rename") for d_ in u["explicit"] if u["rename"][d_]]
             incl = [a for d_ in u["includes"] for a in ("--includes", real[d_])]
-            p = subprocess.run([sys.executable, "-m", "kconfcheck", "--check", "deprecated"] + paths + named + incl, cwd=real["R"], env=env, capture_output=True, text=True)
+            p = subprocess.run([sys.executable, "-m", "kconfcheck", "--check", "deprecated"] + (named + paths if ui % 2 else paths + named) + incl, cwd=real["R"], env=env, capture_output=True, text=True)
             want_fail = any(v == "flagged" for v in obs["<<" + ", ".join(str(k + 1) for k in range(n)) + ">>"]["verdict"])
             if (p.returncode != 0) != want_fail:
                 run.report("python -m kconfcheck --check deprecated: exit status %d, per-file verdicts %s" % (p.returncode, obs), {"universe": u, "stderr": p.stderr[-500:]}, {"cli-exit-status"})
